@@ -290,7 +290,7 @@ func MonC04(c *MonCtx) {
 			}
 			// (c) the active replica set leaves canary nodes alone
 			if v.Role == "active" {
-				for _, w := range append(append(append([]*Call{}, v.Creates...), v.Deletes...), v.Patches...) {
+				for _, w := range append(append([]*Call{}, v.Creates...), v.Deletes...) { // (the statement speaks of creating and deleting)
 					var n string
 					if w.Verb == "create" {
 						n = TargetNode(w.Obj.(*corev1.Pod))
@@ -303,6 +303,19 @@ func MonC04(c *MonCtx) {
 				}
 				if len(v.Canary) > 0 {
 					c.Antecedent("C04c/active-sync-during-canary")
+				}
+				// (d) during the canary nobody but the canary's own end strips the canary label from the running canary's pods
+				for _, w := range v.Patches {
+					p := v.PodByKey[w.NS+"/"+w.Name]
+					q := c.Out.Next.Pod(w.NS, w.Name)
+					if p == nil || q == nil || p.Labels[v1.ExtendedDaemonSetReplicaSetNameLabelKey] != v.EDS.Status.Canary.ReplicaSet {
+						continue
+					}
+					_, had := p.Labels[v1.ExtendedDaemonSetReplicaSetCanaryLabelKey]
+					_, has := q.Labels[v1.ExtendedDaemonSetReplicaSetCanaryLabelKey]
+					if had && !has {
+						c.Violate("C04d", "C04d/label: the canary label was removed from a pod of the running canary replica set by another replica set's sync", w.Name)
+					}
 				}
 			}
 		}
